@@ -36,7 +36,7 @@ PROBES = ["ran_to_completion", "forced_cleanup_deleted_preexisting", "refused_wi
           "identical_paths", "via_symlink", "default_name_coincidence", "symlink_in_input", "file_input", "multi_input",
           "fault_crash", "fault_eio_copy", "fault_enospc_write", "fault_eacces_mkdir", "second_run_on_residue", "copied_files",
           "relative_workspace", "default_workspace", "input_via_symlinked_ancestor", "cwd_contains_default_name",
-          "c_language", "c_header_preprocess", "second_run_other_project", "second_run_incremental", "spawned_subprocess"]
+          "c_language", "c_header_preprocess", "second_run_other_project", "second_run_incremental", "spawned_subprocess", "graph_output", "javascript_language"]
 # the same check again, smaller, in interpreters started with assertions stripped (python -O / PYTHONOPTIMIZE=1)
 ENV_VARIANTS = [{"name": "python-O", "env": {"PYTHONOPTIMIZE": "1"}, "runs": {'quick': 250, 'thorough': 2500}}]
 TIERS = {
@@ -65,7 +65,10 @@ def setup_worker():
 
 PY = ["import os\nx = 1\n", "def f(a, b=2):\n    return a + b\nr = f(1)\n", "class A:\n    def m(self, p):\n        self.q = p\n        return p\n",
       "from pkg import util\nv = util.g(3)\n", "y = [1, 2, 3]\nfor i in y:\n    print(i)\n"]
-JS = ["function f(a) { return a + 1; }\nvar r = f(2);\n", "const o = {a: 1};\no.b = o.a;\n"]
+JS = ["function f(a) { return a + 1; }\nvar r = f(2);\n", "const o = {a: 1};\no.b = o.a;\n",
+      # names taken from the analysed code may contain path separators
+      'const routes = {\n  "../../../../../../site/routes/index"(req) { return req; },\n  "a/b"(x) { return x; }\n};\nroutes["a/b"](1);\n',
+      'class K {\n  "../../../../../../../../escape"(v) { this.v = v; return v; }\n}\nnew K()["../../../../../../../../escape"](2);\n']
 CSRC = ['#include <stdio.h>\n#include "util.h"\nint add(int a, int b) {\n    return a + b;\n}\n',
         '#include "generated/config.h"\nint conf(void) {\n    return CONFIG_VALUE;\n}\n',
         'int twice(int x) {\n    int y = x * 2;\n    return y;\n}\n',
@@ -80,8 +83,9 @@ def gen_knobs(rng, tier):
                                  "via_symlink", "disjoint_preexisting"]),
         "wform": rng.choice(["omitted", "relative", "absolute", "custom_contains_default", "absolute"]),
         "force": rng.random() < 0.8,
-        "sub": rng.choice(["lang", "lang", "lang", "run", "semantic"]),
-        "lang": rng.choice(["python", "python", "python,javascript", "c", "c"]),
+        "sub": rng.choice(["lang", "lang", "lang", "run", "semantic", "semantic"]),
+        "lang": rng.choice(["python", "python", "python,javascript", "javascript", "c", "c"]),
+        "graph": rng.random() < 0.35,
         "c_preprocess": rng.random() < 0.7,
         "second": rng.choice(["same_forced", "same_forced", "other_project_forced", "other_project_incremental", "other_project_incremental"]),
         "n_inputs": rng.choice([1, 1, 2, 3]),
@@ -109,6 +113,9 @@ def _tree(rng, k, base, ops):
             name = f"m{i}.c" if r < 0.55 else (f"m{i % 2}_processed.c" if r < 0.65 else "util.h")
             ops.append({"op": "mkfile", "path": os.path.join(d, name),
                         "content": rng.choice(CSRC) if name.endswith(".c") else "int add(int a, int b);\n"})
+            continue
+        if k["lang"] == "javascript" and r < 0.7:
+            ops.append({"op": "mkfile", "path": os.path.join(d, f"s{i}.js"), "content": rng.choice(JS)})
             continue
         if r < 0.6:
             ops.append({"op": "mkfile", "path": os.path.join(d, f"m{i}.py"), "content": rng.choice(PY)})
@@ -197,7 +204,8 @@ def generate(rng, k):
     if k["cwd_in_input"] and inputs and not inputs[0].endswith(".py"):
         cwd = inputs[0]
     run = {"op": "run", "sub": k["sub"], "lang": k["lang"], "force": k["force"], "cwd": cwd,
-           "flags": (["--nomock"] if k["nomock"] else []) + (["-I"] if k["lang"] == "c" and k.get("c_preprocess") else [])}
+           "flags": (["--nomock"] if k["nomock"] else []) + (["-I"] if k["lang"] == "c" and k.get("c_preprocess") else [])
+                    + ((["--graph", "--enable-p2"] if k.get("graph") and k["sub"] != "lang" else []))}
     if wform == "omitted":
         # default name relative to cwd: the workspace is <cwd>/lian_workspace
         run["w"] = None
@@ -371,6 +379,10 @@ def execute(trace):
                     hit("second_run_other_project")
                 if "--incremental" in op.get("flags", []):
                     hit("second_run_incremental")
+            if "--graph" in op.get("flags", []):
+                hit("graph_output")
+            if "javascript" in op["lang"]:
+                hit("javascript_language")
             if op["lang"] == "c":
                 hit("c_language")
                 if "-I" in op.get("flags", []):
